@@ -308,6 +308,7 @@ func sendKeepAliveToBackend(serverConn *serverConnection, player *connectedPlaye
 		backendState := serverMc.State()
 		if backendState == state.Config || backendState == state.Play {
 			player.ping.Store(time.Since(sentTime))
+			verifhook.Point("ka.forward", "id", p.RandomID)
 			_ = serverMc.WritePacket(p)
 		}
 	}
